@@ -174,7 +174,7 @@ def check_property(pid, tier="quick", only=None, jobs=None, verbose=False, overr
         code = 2
     else:
         code = 0
-    if write and not only:
+    if write and not only and not os.environ.get("PYVC_NO_EVIDENCE"):
         write_evidence(pid, tier, seed, mod, results, obligations, proved, refuted, bounded, undecided, kf_used,
                        by_backend, solver_time, wall, len(violations), code)
     return code
